@@ -14,6 +14,18 @@ CHECKS = {
                 note='T1,T3,T5,T6,T7; autograd axiomatised as formal differentiation; d=m=2 results are labelled bounded',
                 tech=TECH.format(engine='exact polynomial normal form over jets (graded eps-series), z3 for counter-models')),
 }
+CHECKS['C12'] = dict(cat='proof', ref='DESIGN.md section 3 C12',
+    text='Hoare-style proof of the real fixed-step integrate(): inductive loop invariants tie the carried state to the ghost grid G(k)=min(G(k-1)+dt, ts[-1]) and ghost trajectory; postcondition: ys[0]=y0, every output is the linear interpolant of the two neighbouring grid states, the run ends at ts[-1]; linear_interp proved against its formula; grid lemmas and output-time invariance as z3 lemmas. Unbounded in len(ts), number of steps, dt.',
+    note='T1 (times are reals), step uninterpreted (any solver), dt>0 precondition; result dtype and the Archimedean termination argument are not decided',
+    tech=TECH.format(engine='z3 (quantified invariants over ghost functions), cvc5/z3-4.8 second opinion'))
+CHECKS['C13'] = dict(cat='proof', ref='DESIGN.md section 3 C13',
+    text='(1) frame obligations on every real solver step (writes nothing, one Brownian query over (t0,t1)); (2) integrate() proved with UNINTERPRETED time arithmetic so equality means same operations on same operands; (3) relational loop-body obligation: executions agreeing on (curr_t, curr_y, curr_extra), self and ts[-1] and on nothing else agree afterwards (no hidden state); (4) chunk lemma by induction, z3.',
+    note='T1/T2: bit-identity decided as operation-sequence identity; repeated Brownian queries identical (C05); fadd(a,dt)>a assumed',
+    tech=TECH.format(engine='z3 with uninterpreted float arithmetic + relational (2-safety) loop-body obligation'))
+CHECKS['C14'] = dict(cat='proof', ref='DESIGN.md section 3 C14',
+    text='Hoare-style proof of the real adaptive arm of integrate(): invariant over a ghost accepted trajectory (each accepted step is the two-half-step map, contiguous, strictly advancing, inside [ts[0], ts[-1]], ends at ts[-1]); per-trial obligations (accept iff err<=1 or step<=dt_min, rejected => state unchanged and strictly smaller step >= dt_min, trial length >= dt_min or clipped, three Brownian queries); update_step_size and compute_error proved against their contracts.',
+    note='T1; pow(x,a) uninterpreted with monotonicity axioms (T5); termination reduced to proved progress facts; "tighter tolerances reduce true error" not decided',
+    tech=TECH.format(engine='z3 (nonlinear reals, quantified ghost arrays)'))
 REASONS = {}
 checks = []
 for p in props:
